@@ -401,4 +401,146 @@ theorem zipWith_entries (acc : Plumb.FileTypeMap) :
   | nil => rfl
   | cons e t ih => simp [ih]
 
+/-! ### `_parse_field_tolerances` -/
+
+/-- a one-character string -/
+def charV (c : Char) : Val := .str (String.ofList [c])
+
+/-- a tolerance string (`"1e-3"`, `"p:0"`, `"1e-3*max"`) presented as the sequence of its characters, so that
+    `":" in tol_string` is membership -/
+def tokV (s : String) : Val := .list (s.toList.map charV)
+
+theorem colon_eq (c : Char) : (":" == String.ofList [c]) = (':' == c) := by
+  by_cases h : ':' = c
+  · subst h; decide
+  · have : ":" ≠ String.ofList [c] := by
+      intro h2
+      apply h
+      have h3 := congrArg String.toList h2
+      simp at h3
+      exact h3
+    have h5 : (":" == String.ofList [c]) = false := by simpa using this
+    rw [h5]
+    simp [h]
+
+theorem memOf_colon (l : List Char) : memOf (.str ":") (l.map charV) = .ok (l.contains ':') := by
+  induction l with
+  | nil => rfl
+  | cons c r ih =>
+    simp only [List.map_cons, memOf, charV, Val.eqv, colon_eq, ih, List.contains_cons]
+    by_cases h : ':' = c
+    · subst h; simp
+    · have : (':' == c) = false := by simpa using h
+      simp [this]
+
+theorem splitOnChar_no (c : Char) (l : List Char) (h : l.contains c = false) : splitOnChar c l = [l] := by
+  induction l with
+  | nil => rfl
+  | cons x xs ih =>
+    simp only [List.contains_cons, Bool.or_eq_false_iff] at h
+    have hx : ¬ x = c := by intro e; subst e; simp at h
+    simp [splitOnChar, ih h.2, hx]
+
+theorem splitOnChar_yes (c : Char) (l : List Char) (h : l.contains c = true) : 2 ≤ (splitOnChar c l).length := by
+  induction l with
+  | nil => simp at h
+  | cons x xs ih =>
+    simp only [splitOnChar]
+    cases hs : splitOnChar c xs with
+    | nil => 
+      exfalso
+      clear ih h
+      induction xs with
+      | nil => simp [splitOnChar] at hs
+      | cons y ys ih2 =>
+        simp only [splitOnChar] at hs
+        cases h2 : splitOnChar c ys with
+        | nil => exact ih2 h2
+        | cons p ps => rw [h2] at hs; by_cases hy : y = c <;> simp [hy] at hs
+    | cons p ps =>
+      by_cases hx : x = c
+      · simp [hx]
+      · simp only [hx, if_false, List.length_cons]
+        have : xs.contains c = true := by
+          simp only [List.contains_cons, Bool.or_eq_true] at h
+          rcases h with h | h
+          · exact absurd (by simpa using h) (Ne.symm hx)
+          · exact h
+        have := ih this
+        rw [hs] at this
+        simpa using this
+
+/-- one token of the loop of `_parse_field_tolerances` in the model (no exotic literals): `none` = raises -/
+def stepTok (pf : String → FloatLit) (dyn : Bool) (m : TolMap) (s : String) : Option TolMap :=
+  match classifyTok s with
+  | .malformed => none
+  | .named n v =>
+    match makeTolerance pf dyn v with
+    | some (some t) => some { m with named := (n, t) :: m.named }
+    | _ => none
+  | .unnamed v =>
+    match makeTolerance pf dyn v with
+    | some (some t) => some { m with dflt := some t }
+    | _ => none
+
+theorem makeTolerance_noExotic (pf : String → FloatLit) (hpf : ∀ s, pf s ≠ .exotic) (dyn : Bool) (v : String) :
+    makeTolerance pf dyn v ≠ some none := by
+  unfold makeTolerance
+  split
+  · split <;> simp_all
+  · split <;> simp_all
+
+theorem parseLoop_eq_foldOpt (pf : String → FloatLit) (hpf : ∀ s, pf s ≠ .exotic) (dyn : Bool) (toks : List String)
+    (m : TolMap) :
+    parseLoop pf dyn toks m false =
+      match foldOpt (stepTok pf dyn) toks m with
+      | some m' => .ok m' false
+      | none => .raised := by
+  induction toks generalizing m with
+  | nil => rfl
+  | cons s r ih =>
+    simp only [parseLoop, foldOpt, stepTok]
+    cases classifyTok s with
+    | malformed => rfl
+    | named n v =>
+      have := makeTolerance_noExotic pf hpf dyn v
+      cases hm : makeTolerance pf dyn v with
+      | none => simp [hm]
+      | some o =>
+        cases o with
+        | none => exact absurd hm this
+        | some t => simp [hm, ih]
+    | unnamed v =>
+      have := makeTolerance_noExotic pf hpf dyn v
+      cases hm : makeTolerance pf dyn v with
+      | none => simp [hm]
+      | some o =>
+        cases o with
+        | none => exact absurd hm this
+        | some t => simp [hm, ih]
+
+/-- what the theorem about `_parse_field_tolerances` assumes about its callees (string methods, `float`, the two
+    constructors); `pf` = what `float(str)` does with a literal -/
+structure TolExt (X : Ext) (pf : String → FloatLit) : Prop where
+  hsplit : ∀ s, X ".split" [tokV s, .str ":"] = .ok (.list
+    (match splitOnChar ':' s.toList with
+     | [n, v] => [.str (String.ofList n), tokV (String.ofList v)]
+     | ps => ps.map fun p => tokV (String.ofList p)))
+  hends : ∀ s, X ".endswith" [tokV s, .str "*max"] = .ok (.bool (endsWith s.toList maxSuffix))
+  hrsplit : ∀ s, ∃ rest, X ".rsplit" [tokV s, .str "*max"] =
+    .ok (.list (tokV (String.ofList ((beforeFirst maxSuffix s.toList).getD [])) :: rest))
+  hfloat : ∀ s, X "float" [tokV s] =
+    match pf s with
+    | .bad => .raise "ValueError"
+    | .num u => .ok (.int (u : Int))
+    | .exotic => .stuck
+  hscaled : ∀ u : Nat, X "ScaledTolerance(base_tolerance=)" [.int (u : Int)] = .ok (tolVal (.scaled u))
+  hctor : ∀ kvs d, X "FieldToleranceMap(default_tol=)" [.dict kvs, d] =
+    .ok (.record [("_field_tolerances", .dict kvs), ("_default", d)])
+  hempty : X "FieldToleranceMap" [] = .ok (ftmVal [] none)
+
+def optTokList : Option (List String) → Val
+  | some l => .list (l.map tokV)
+  | none => .none
+
 end Fc.PyLite.Cli
